@@ -41,6 +41,144 @@ type run struct {
 	deposited map[int]*big.Int
 	withdrawn map[int]*big.Int
 	nonce     uint64
+	relayer   sdk.AccAddress // registered bridger on every chain (signs MsgRequestBatch)
+	// model of the external bridge contracts (FxBridgeLogic.submitBatch): every batch fxcore ever built, the
+	// contract's state_lastBatchNonces[token] (PER TOKEN), and which batches' timeout height has passed
+	ext     []*extBatch
+	extLast map[[2]int]int // (chain, group) -> last executed batch nonce on the external chain
+	// amount of each fxcore-origin token (FX, externally-owned pair) circulating on each external chain: initial +
+	// executed out - deposited.  The environment cannot deposit more than that.
+	extSupply map[[2]int]*big.Int
+}
+
+func locks(g *bx.Group) bool { return g.Kind != bx.KindModule }
+
+func (r *run) supply(c, g int) *big.Int {
+	if r.extSupply[[2]int{c, g}] == nil {
+		r.extSupply[[2]int{c, g}] = new(big.Int)
+	}
+	return r.extSupply[[2]int{c, g}]
+}
+
+// envOk: the external chain holds what a deposit of these tokens sends in
+func (r *run) envOk(c int, ts []tok) bool {
+	tot := map[int]int{}
+	for _, t := range ts {
+		tot[t.g] += t.n
+	}
+	for g, n := range tot {
+		if locks(r.w.Groups[g]) && r.supply(c, g).Cmp(bi(n)) < 0 {
+			return false
+		}
+	}
+	return true
+}
+
+// inFlightAt: value of group g queued, batched or in an outgoing bridge call on chain c
+func (r *run) inFlightAt(c, g int) *big.Int {
+	sum := new(big.Int)
+	k := r.w.Keeper(c)
+	for _, tx := range k.GetUnbatchedTransactions(r.w.S.Ctx) {
+		if r.w.GroupByContract(c, tx.Token.Contract) == g {
+			sum.Add(sum, tx.Token.Amount.BigInt())
+			sum.Add(sum, tx.Fee.Amount.BigInt())
+		}
+	}
+	for _, b := range k.GetOutgoingTxBatches(r.w.S.Ctx) {
+		if r.w.GroupByContract(c, b.TokenContract) == g {
+			for _, tx := range b.Transactions {
+				sum.Add(sum, tx.Token.Amount.BigInt())
+				sum.Add(sum, tx.Fee.Amount.BigInt())
+			}
+		}
+	}
+	k.IterateOutgoingBridgeCalls(r.w.S.Ctx, func(oc *crosschaintypes.OutgoingBridgeCall) bool {
+		for _, t := range oc.Tokens {
+			if r.w.GroupByContract(c, t.Contract) == g {
+				sum.Add(sum, t.Amount.BigInt())
+			}
+		}
+		return false
+	})
+	return sum
+}
+
+type extTx struct{ id, amount, fee int }
+
+type extBatch struct {
+	c, g, nonce int
+	txs         []extTx
+	expired     bool
+}
+
+func (b *extBatch) value() int {
+	v := 0
+	for _, t := range b.txs {
+		v += t.amount + t.fee
+	}
+	return v
+}
+
+// the external contract still accepts the batch: require(state_lastBatchNonces[token] < nonce), block.number < timeout
+func (r *run) extAccepts(b *extBatch) bool {
+	return !b.expired && r.extLast[[2]int{b.c, b.g}] < b.nonce
+}
+
+// syncExt records batches newly built on fxcore (the oracles sign whatever is stored)
+func (r *run) syncExt() {
+	for c := range bx.Chains {
+		for _, b := range r.w.Keeper(c).GetOutgoingTxBatches(r.w.S.Ctx) {
+			known := false
+			for _, e := range r.ext {
+				if e.c == c && e.nonce == int(b.BatchNonce) {
+					known = true
+				}
+			}
+			if known {
+				continue
+			}
+			e := &extBatch{c: c, g: r.w.GroupByContract(c, b.TokenContract), nonce: int(b.BatchNonce)}
+			for _, tx := range b.Transactions {
+				e.txs = append(e.txs, extTx{int(tx.Id), int(tx.Token.Amount.Int64()), int(tx.Fee.Amount.Int64())})
+			}
+			sort.Slice(e.txs, func(i, j int) bool { return e.txs[i].id < e.txs[j].id })
+			r.ext = append(r.ext, e)
+		}
+	}
+}
+
+// extras appended to the observation line: ghost counters (deposits / executed withdrawals per group as accounted by
+// the harness) and the external contracts' last executed batch nonce per (chain, token)
+func (r *run) extras() string {
+	var p []string
+	for _, g := range r.w.Groups {
+		if r.deposited[g.G].Sign() != 0 {
+			p = append(p, fmt.Sprintf("D.g%d=%s", g.G, r.deposited[g.G]))
+		}
+	}
+	for _, g := range r.w.Groups {
+		if r.withdrawn[g.G].Sign() != 0 {
+			p = append(p, fmt.Sprintf("W.g%d=%s", g.G, r.withdrawn[g.G]))
+		}
+	}
+	for c := range bx.Chains {
+		for _, g := range r.w.Groups {
+			if n := r.extLast[[2]int{c, g.G}]; n != 0 {
+				p = append(p, fmt.Sprintf("xl%d.%d=%d", c, g.G, n))
+			}
+		}
+	}
+	for c := range bx.Chains {
+		for _, g := range r.w.Groups {
+			if locks(g) && r.supply(c, g.G).Sign() != 0 {
+				p = append(p, fmt.Sprintf("xs%d.%d=%s", c, g.G, r.supply(c, g.G)))
+			}
+		}
+	}
+	if len(p) == 0 {
+		return ""
+	}
+	return " " + strings.Join(p, " ")
 }
 
 func bi(n int) *big.Int       { return big.NewInt(int64(n)) }
@@ -98,9 +236,28 @@ func (r *run) exec(line string, f func() string, expect map[[2]int]int, dep, wd 
 	if res != "ok" {
 		kind = "err"
 	}
-	obs := kind + " " + r.w.Dump()
-	r.out.Emit(line, obs)
 	op := strings.SplitN(line, " ", 2)[0]
+	if wdCheck != nil {
+		wdCheck(res) // op-specific monitor + environment bookkeeping (external contract state)
+	}
+	if kind == "ok" {
+		c := opChain(line)
+		for _, t := range dep {
+			r.deposited[t.g].Add(r.deposited[t.g], bi(t.n))
+			if c >= 0 && locks(r.w.Groups[t.g]) {
+				r.supply(c, t.g).Sub(r.supply(c, t.g), bi(t.n))
+			}
+		}
+		for _, t := range wd {
+			r.withdrawn[t.g].Add(r.withdrawn[t.g], bi(t.n))
+			if c >= 0 && locks(r.w.Groups[t.g]) {
+				r.supply(c, t.g).Add(r.supply(c, t.g), bi(t.n))
+			}
+		}
+	}
+	r.syncExt()
+	obs := kind + " " + strings.TrimSpace(r.w.Dump()+r.extras())
+	r.out.Emit(line, obs)
 	r.out.Count("op:" + op + ":" + kind)
 	if kind == "err" {
 		e := res
@@ -114,15 +271,6 @@ func (r *run) exec(line string, f func() string, expect map[[2]int]int, dep, wd 
 		r.out.Count("errclass:" + classify(res))
 	} else {
 		r.out.Nontrivial(op + "|ok")
-		for _, t := range dep {
-			r.deposited[t.g].Add(r.deposited[t.g], bi(t.n))
-		}
-		for _, t := range wd {
-			r.withdrawn[t.g].Add(r.withdrawn[t.g], bi(t.n))
-		}
-	}
-	if wdCheck != nil {
-		wdCheck(res)
 	}
 	// monitor 1: conservation on real balances
 	held := r.w.Held()
@@ -136,6 +284,44 @@ func (r *run) exec(line string, f func() string, expect map[[2]int]int, dep, wd 
 		rhs.Sub(rhs, r.withdrawn[g.G])
 		if lhs.Cmp(rhs) != 0 {
 			r.out.Violate(fmt.Sprintf("conservation broken for %s token after %s: held+inFlight=%s, initial+deposits-withdrawals=%s", kindName(g.Kind), op, lhs, rhs))
+		}
+	}
+	// monitor 1b: a batch the external chain can still execute must still be pending on fxcore, unchanged
+	for _, e := range r.ext {
+		if !r.extAccepts(e) {
+			continue
+		}
+		b := r.w.Keeper(e.c).GetOutgoingTxBatch(r.w.S.Ctx, r.tokenContract(e.c, e.g), uint64(e.nonce))
+		same := b != nil && len(b.Transactions) == len(e.txs)
+		if same {
+			have := map[int][2]int{}
+			for _, tx := range b.Transactions {
+				have[int(tx.Id)] = [2]int{int(tx.Token.Amount.Int64()), int(tx.Fee.Amount.Int64())}
+			}
+			for _, t := range e.txs {
+				if have[t.id] != [2]int{t.amount, t.fee} {
+					same = false
+				}
+			}
+		}
+		if !same {
+			r.out.Violate(fmt.Sprintf("batch still executable on the external chain (nonce above the contract's last executed nonce of its token, not timed out) is no longer pending on fxcore after %s: its transfers can be refunded here and still be paid out there (%s token)", op, kindName(r.w.Groups[e.g].Kind)))
+			e.expired = true // report once
+		}
+	}
+	// monitor 1c: the bridge-side escrow of a locking token is exactly what is in flight on that chain plus what
+	// circulates on the external chain (so every cancel / refund / deposit finds its funds)
+	for c := range bx.Chains {
+		for _, g := range r.w.Groups {
+			if !locks(g) || !g.OnChain[c] {
+				continue
+			}
+			denom := g.Bridge[c] // FX: the base coin itself
+			have := r.w.S.App.BankKeeper.GetBalance(r.w.S.Ctx, bx.ModuleAddr(bx.Chains[c]), denom).Amount.BigInt()
+			want := new(big.Int).Add(r.inFlightAt(c, g.G), r.supply(c, g.G))
+			if have.Cmp(want) != 0 {
+				r.out.Violate(fmt.Sprintf("escrow of %s token in the %s module account is %s after %s, but in flight there + circulating outside = %s", kindName(g.Kind), bx.Chains[c], have, op, want))
+			}
 		}
 	}
 	// monitor 2: every holder's holdings change by exactly the stated delta
@@ -166,6 +352,18 @@ func (r *run) exec(line string, f func() string, expect map[[2]int]int, dep, wd 
 		}
 	}
 	return res
+}
+
+// opChain: the chain an op line is about (second word), -1 for the conversions
+func opChain(line string) int {
+	f := strings.Fields(line)
+	switch f[0] {
+	case "ccoin", "cerc", "cden":
+		return -1
+	}
+	var c int
+	fmt.Sscan(f[1], &c)
+	return c
 }
 
 func classify(res string) string {
@@ -206,6 +404,9 @@ func (r *run) deposit(c, g, u, n int, toErc bool) {
 		contractAddr = helpers.GenExternalAddr(r.chain(c))
 	}
 	r.exec(fmt.Sprintf("deposit %d %d %d %d %d", c, g, u, n, e), func() string {
+		if grp.OnChain[c] && !r.envOk(c, []tok{{g, n}}) {
+			return "err:env: the external chain does not hold these tokens"
+		}
 		return w.Atomic(func(ctx sdk.Context) error {
 			return w.Keeper(c).SendToFxExecuted(ctx, &crosschaintypes.MsgSendToFxClaim{
 				EventNonce: r.nextNonce(), BlockHeight: 1, TokenContract: contractAddr, Amount: si(n),
@@ -261,6 +462,38 @@ func (r *run) xsend(c, g, u, n, fee int) {
 	}, map[[2]int]int{{u, g}: -(n + fee)}, nil, nil, r.withdrawCheck("precompile crossChain", c, g, u, n+fee, true))
 }
 
+// vsend: precompile crossChain with the zero token address and msg.value = amount + fee (FX travels as value)
+func (r *run) vsend(c, g, u, n, fee int) {
+	w := r.w
+	data, err := crosschaintypes.GetABI().Pack("crossChain", common.Address{}, helpers.GenExternalAddr(r.chain(c)), bi(n), bi(fee), fxtypes.MustStrToByte32(r.chain(c)), "")
+	if err != nil {
+		panic(err)
+	}
+	have := r.w.S.App.BankKeeper.GetBalance(r.w.S.Ctx, w.Users[u].AccAddress(), fxtypes.DefaultDenom).Amount.BigInt()
+	r.exec(fmt.Sprintf("vsend %d %d %d %d %d", c, g, u, n, fee), func() string {
+		if w.Groups[g].Kind != bx.KindFX {
+			return "err:only the origin token travels as msg.value"
+		}
+		return w.CallEVM(w.Users[u].Address(), crosschaintypes.GetAddress(), bi(n+fee), data)
+	}, map[[2]int]int{{u, g}: -(n + fee)}, nil, nil, func(res string) {
+		if res != "ok" && w.Groups[g].Kind == bx.KindFX && w.Groups[g].OnChain[c] && n > 0 && have.Cmp(bi(n+fee)) >= 0 && strings.Contains(res, "insufficient funds") {
+			r.out.Violate("withdrawal refused for lack of escrowed funds: precompile crossChain (msg.value) of single-chain fx token by a holder with sufficient balance")
+		}
+	})
+}
+
+// xincfee: precompile increaseBridgeFee paying with the group's ERC-20 token
+func (r *run) xincfee(c, id, u, g, n int) {
+	w := r.w
+	data, err := crosschaintypes.GetABI().Pack("increaseBridgeFee", r.chain(c), bi(id), w.Groups[g].Erc20, bi(n))
+	if err != nil {
+		panic(err)
+	}
+	r.exec(fmt.Sprintf("xincfee %d %d %d %d %d", c, id, u, g, n), func() string {
+		return w.CallEVM(w.Users[u].Address(), crosschaintypes.GetAddress(), big.NewInt(0), data)
+	}, map[[2]int]int{{u, g}: -n}, nil, nil, nil)
+}
+
 type poolRec struct{ c, id, u, g, amount, fee int }
 
 func (r *run) poolTxs() []poolRec {
@@ -278,8 +511,22 @@ func (r *run) poolTxs() []poolRec {
 func (r *run) cancel(c, id, u int, pre bool, tx *poolRec) {
 	w := r.w
 	exp := map[[2]int]int{}
+	if tx == nil { // the malformed stream may hit an existing transfer of this sender by chance
+		for _, t := range r.poolTxs() {
+			if t.c == c && t.id == id && t.u == u {
+				t := t
+				tx = &t
+			}
+		}
+	}
 	if tx != nil {
 		exp[[2]int{u, tx.g}] = tx.amount + tx.fee
+	}
+	// the sender's cancel of a transfer that is still in the pool must find the funds it queued
+	check := func(res string) {
+		if tx != nil && res != "ok" && strings.Contains(res, "insufficient") {
+			r.out.Violate(fmt.Sprintf("cancel of a queued transfer by its sender refused for lack of funds on the bridge side (%s token): value stuck in flight", kindName(w.Groups[tx.g].Kind)))
+		}
 	}
 	if pre {
 		data, err := crosschaintypes.GetABI().Pack("cancelSendToExternal", r.chain(c), bi(id))
@@ -288,12 +535,12 @@ func (r *run) cancel(c, id, u int, pre bool, tx *poolRec) {
 		}
 		r.exec(fmt.Sprintf("xcancel %d %d %d", c, id, u), func() string {
 			return w.CallEVM(w.Users[u].Address(), crosschaintypes.GetAddress(), big.NewInt(0), data)
-		}, exp, nil, nil, nil)
+		}, exp, nil, nil, check)
 		return
 	}
 	r.exec(fmt.Sprintf("cancel %d %d %d", c, id, u), func() string {
 		return w.Msg(&crosschaintypes.MsgCancelSendToExternal{TransactionId: uint64(id), Sender: w.Users[u].AccAddress().String(), ChainName: r.chain(c)})
-	}, exp, nil, nil, nil)
+	}, exp, nil, nil, check)
 }
 
 func (r *run) incfee(c, id, u, g, n int) {
@@ -315,43 +562,93 @@ func (r *run) tokenContract(c, g int) string {
 	return helpers.GenExternalAddr(r.chain(c))
 }
 
-func (r *run) batch(c, g, baseFee int) {
+// batch: MsgRequestBatch through the real message router, signed by the registered bridger or by a plain user
+func (r *run) batch(c, g, baseFee, minFee int, asOracle bool) {
 	w := r.w
-	r.exec(fmt.Sprintf("batch %d %d %d", c, g, baseFee), func() string {
-		return w.Atomic(func(ctx sdk.Context) error {
-			_, err := w.Keeper(c).BuildOutgoingTxBatch(ctx, r.tokenContract(c, g), helpers.GenExternalAddr(r.chain(c)), 100, sdkmath.ZeroInt(), si(baseFee))
-			return err
-		})
-	}, nil, nil, nil, nil)
+	denom := w.Groups[g].Bridge[c]
+	if denom == "" {
+		denom = crosschaintypes.NewBridgeDenom(r.chain(c), helpers.GenExternalAddr(r.chain(c)))
+	}
+	sender := r.relayer
+	ao := 1
+	if !asOracle {
+		sender = w.Users[0].AccAddress()
+		ao = 0
+	}
+	before := r.inFlightTotal()
+	r.exec(fmt.Sprintf("batch %d %d %d %d %d", c, g, baseFee, minFee, ao), func() string {
+		return w.Msg(&crosschaintypes.MsgRequestBatch{Sender: sender.String(), Denom: denom, MinimumFee: si(minFee),
+			FeeReceive: helpers.GenExternalAddr(r.chain(c)), ChainName: r.chain(c), BaseFee: si(baseFee)})
+	}, nil, nil, nil, func(res string) {
+		// a batch request moves no value: whatever left the pool must be in a batch
+		if after := r.inFlightTotal(); after.Cmp(before) != 0 {
+			r.out.Violate(fmt.Sprintf("batch request (%s) changed the value queued or batched from %s to %s", map[bool]string{true: "accepted", false: "rejected"}[res == "ok"], before, after))
+		}
+	})
 }
 
+func (r *run) inFlightTotal() *big.Int {
+	infl, _ := r.w.InFlight()
+	sum := new(big.Int)
+	for _, v := range infl {
+		sum.Add(sum, v)
+	}
+	return sum
+}
+
+func (r *run) findExt(c, g, nonce int) *extBatch {
+	for _, e := range r.ext {
+		if e.c == c && e.g == g && e.nonce == nonce {
+			return e
+		}
+	}
+	return nil
+}
+
+// executed: the external chain executed batch (g, nonce) and the claim is observed.  The amount paid out on the
+// external chain is what the signed batch says (ext model), not what fxcore still remembers.
 func (r *run) executed(c, g, nonce int) {
 	w := r.w
 	var wd []tok
-	b := w.Keeper(c).GetOutgoingTxBatch(w.S.Ctx, r.tokenContract(c, g), uint64(nonce))
-	if b != nil {
-		for _, tx := range b.Transactions {
-			wd = append(wd, tok{g, int(tx.Token.Amount.Int64() + tx.Fee.Amount.Int64())})
+	e := r.findExt(c, g, nonce)
+	acceptable := e != nil && r.extAccepts(e)
+	if acceptable {
+		for _, t := range e.txs {
+			wd = append(wd, tok{g, t.amount + t.fee})
 		}
 	}
 	r.exec(fmt.Sprintf("executed %d %d %d", c, g, nonce), func() string {
-		if b == nil {
-			return "err:batch not found"
+		if !acceptable {
+			return "err:the external chain does not execute this batch"
 		}
 		return w.Atomic(func(ctx sdk.Context) error {
 			w.Keeper(c).OutgoingTxBatchExecuted(ctx, r.tokenContract(c, g), uint64(nonce))
 			return nil
 		})
-	}, nil, nil, wd, nil)
+	}, nil, nil, wd, func(res string) {
+		if !acceptable {
+			return
+		}
+		r.extLast[[2]int{c, g}] = nonce
+		if res != "ok" {
+			r.out.Violate(fmt.Sprintf("observed execution of a batch the external chain accepted cannot be accounted on fxcore (%s): the withdrawal is paid out there without a matching decrease here (%s token)", classify(res), kindName(w.Groups[g].Kind)))
+		}
+	})
 }
 
+// btimeout: the batch's external timeout height has passed (environment) and fxcore cancels it
 func (r *run) btimeout(c, g, nonce int) {
 	w := r.w
+	e := r.findExt(c, g, nonce)
 	r.exec(fmt.Sprintf("btimeout %d %d %d", c, g, nonce), func() string {
 		return w.Atomic(func(ctx sdk.Context) error {
 			return w.Keeper(c).CancelOutgoingTxBatch(ctx, r.tokenContract(c, g), uint64(nonce))
 		})
-	}, nil, nil, nil, nil)
+	}, nil, nil, nil, func(res string) {
+		if res == "ok" && e != nil {
+			e.expired = true
+		}
+	})
 }
 
 func (r *run) bcout(c, u, ref int, ts []tok, pre bool) {
@@ -395,6 +692,33 @@ func (r *run) bcout(c, u, ref int, ts []tok, pre bool) {
 	}, exp, nil, nil, check)
 }
 
+// vbcout: precompile bridgeCall carrying FX as msg.value (plus, possibly, ERC-20 tokens)
+func (r *run) vbcout(c, u, ref, v int, ts []tok) {
+	w := r.w
+	exp := map[[2]int]int{{u, 0}: -v}
+	tokens := []common.Address{}
+	amounts := []*big.Int{}
+	for _, t := range ts {
+		exp[[2]int{u, t.g}] -= t.n
+		tokens = append(tokens, w.Groups[t.g].Erc20)
+		amounts = append(amounts, bi(t.n))
+	}
+	data, err := crosschaintypes.GetABI().Pack("bridgeCall", r.chain(c), w.Users[ref].Address(), tokens, amounts, common.Address{}, []byte{}, big.NewInt(0), []byte{})
+	if err != nil {
+		panic(err)
+	}
+	tss := tokStr(ts)
+	if len(ts) == 0 {
+		tss = "-"
+	}
+	r.exec(fmt.Sprintf("vbcout %d 0 %d %d %d %s", c, u, ref, v, tss), func() string {
+		if v == 0 {
+			return "err:no value" // without msg.value this is the plain precompile bridge call (op bcout)
+		}
+		return w.CallEVM(w.Users[u].Address(), crosschaintypes.GetAddress(), bi(v), data)
+	}, exp, nil, nil, nil)
+}
+
 type callRec struct {
 	c, nonce int
 	refund   int // holder index
@@ -424,6 +748,14 @@ func (r *run) bcresult(c, nonce int, success bool, cr *callRec, timeout bool) {
 	var wd []tok
 	if timeout {
 		success = false
+	}
+	if cr == nil { // the malformed stream may hit an existing record by chance
+		for _, oc := range r.outCalls() {
+			if oc.c == c && oc.nonce == nonce {
+				oc := oc
+				cr = &oc
+			}
+		}
 	}
 	if cr != nil {
 		if success {
@@ -505,6 +837,9 @@ func (r *run) bcin(c, to, ref int, ts []tok, fail bool) {
 		line = fmt.Sprintf("bcin %d %d %s", c, to, tokStr(ts))
 	}
 	r.exec(line, func() string {
+		if !r.envOk(c, ts) {
+			return "err:env: the external chain does not hold these tokens"
+		}
 		return w.Atomic(func(ctx sdk.Context) error {
 			return w.Keeper(c).BridgeCallHandler(ctx, &crosschaintypes.MsgBridgeCallClaim{ChainName: r.chain(c), EventNonce: r.nextNonce(), BlockHeight: 1,
 				Sender: helpers.GenExternalAddr(r.chain(c)), Refund: hexAddr(w.Users[ref].Address()), TokenContracts: contracts, Amounts: amounts,
@@ -566,8 +901,9 @@ func (r *run) cden(g, u, rc, n, src, dst int) {
 
 // ---- generator -----------------------------------------------------------------------------------------
 
+// amount: boundary-biased (1, exactly the balance, one more than the balance), otherwise mostly affordable
 func (r *run) amount(max int) int {
-	switch r.rng.Intn(8) {
+	switch r.rng.Intn(10) {
 	case 0:
 		return 1
 	case 1:
@@ -576,6 +912,15 @@ func (r *run) amount(max int) int {
 		}
 	case 2:
 		return max + 1
+	case 3:
+		return 1 + r.rng.Intn(30)
+	}
+	if max >= 1 {
+		m := max
+		if m > 30 {
+			m = 30
+		}
+		return 1 + r.rng.Intn(m)
 	}
 	return 1 + r.rng.Intn(30)
 }
@@ -617,12 +962,301 @@ func (r *run) tokens(c int) []tok {
 	return ts
 }
 
+// tokensOf: tokens for a bridge call on chain c paid by user u (erc: with ERC-20 tokens, else with base coins): mostly
+// tokens the user holds, amounts boundary-biased against the holding; dup: the same token may appear twice (the
+// precompile and the claim take token ARRAYS; a Cosmos message takes sdk.Coins, which cannot)
+func (r *run) tokensOf(c, u int, erc, dup bool) []tok {
+	rng := r.rng
+	bal := func(g int) int {
+		if erc {
+			return r.ercBal(u, g)
+		}
+		return r.baseBal(u, g)
+	}
+	var cand []int
+	for _, g := range r.w.Groups {
+		if g.OnChain[c] && bal(g.G) > 0 {
+			cand = append(cand, g.G)
+		}
+	}
+	if len(cand) == 0 || rng.Intn(8) == 0 {
+		return r.tokens(c)
+	}
+	rng.Shuffle(len(cand), func(i, j int) { cand[i], cand[j] = cand[j], cand[i] })
+	n := 1
+	if len(cand) > 1 && rng.Intn(3) == 0 {
+		n = 2
+	}
+	cand = cand[:n]
+	sort.Slice(cand, func(i, j int) bool { return r.w.Groups[cand[i]].Base < r.w.Groups[cand[j]].Base })
+	var ts []tok
+	for _, g := range cand {
+		a := r.amount(bal(g))
+		if a > 40 {
+			a = 1 + rng.Intn(40)
+		}
+		ts = append(ts, tok{g, a})
+	}
+	if dup && rng.Intn(4) == 0 {
+		ts = append(ts, tok{ts[0].g, 1 + rng.Intn(5)})
+		r.out.Count("gen:tokens:same-token-twice")
+	}
+	return ts
+}
+
 func (r *run) baseBal(u, g int) int {
 	return int(r.w.S.App.BankKeeper.GetBalance(r.w.S.Ctx, r.w.Users[u].AccAddress(), r.w.Groups[g].Base).Amount.Int64())
 }
 
 func (r *run) ercBal(u, g int) int {
 	return int(r.w.BalanceOf(r.w.Groups[g].Erc20, r.w.Users[u].Address()).Int64())
+}
+
+// selectedFees: total fee of the transfers a batch request for (c, g, baseFee) would pick
+func (r *run) selectedFees(c, g, baseFee int) int {
+	tot := 0
+	for _, tx := range r.poolTxs() {
+		if tx.c == c && tx.g == g && tx.fee >= baseFee {
+			tot += tx.fee
+		}
+	}
+	return tot
+}
+
+// randomBatch: batch request with the minimum fee at the boundary of what the pool offers
+func (r *run) randomBatch() {
+	rng := r.rng
+	var g, c int
+	if txs := r.poolTxs(); len(txs) > 0 && rng.Intn(5) > 0 {
+		tx := txs[rng.Intn(len(txs))]
+		g, c = tx.g, tx.c
+	} else {
+		g, c = r.pickGroupChain(false)
+	}
+	baseFee := rng.Intn(3)
+	tot := r.selectedFees(c, g, baseFee)
+	minFee := 1
+	switch rng.Intn(8) {
+	case 0:
+		minFee = tot + 1
+		r.out.Count("gen:batch:minFee=total+1")
+	case 1:
+		minFee = tot
+		r.out.Count("gen:batch:minFee=total")
+	case 2:
+		minFee = tot - 1
+		r.out.Count("gen:batch:minFee=total-1")
+	case 3:
+		minFee = 0
+		r.out.Count("gen:batch:minFee=0")
+	case 4:
+		minFee = 1000
+		r.out.Count("gen:batch:minFee=huge")
+	default:
+		r.out.Count("gen:batch:minFee=1")
+	}
+	if minFee < 0 {
+		minFee = 0
+	}
+	r.batch(c, g, baseFee, minFee, rng.Intn(12) > 0)
+}
+
+// randomSettle: the external chain executes one of the batches it still accepts (any order, so also a higher nonce of
+// one token before a lower nonce of another), or a batch times out; rarely a claim the contract would never emit
+func (r *run) randomSettle() {
+	rng := r.rng
+	var acc []*extBatch
+	for _, e := range r.ext {
+		if r.extAccepts(e) {
+			acc = append(acc, e)
+		}
+	}
+	if len(acc) == 0 && rng.Intn(4) > 0 {
+		r.randomBatch() // nothing to settle: build something instead
+		return
+	}
+	if len(acc) == 0 || rng.Intn(12) == 0 {
+		g, c := r.pickGroupChain(true)
+		r.executed(c, g, 1+rng.Intn(4))
+		return
+	}
+	e := acc[rng.Intn(len(acc))]
+	lower, other := 0, 0
+	for _, o := range acc {
+		if o.c == e.c && o.nonce < e.nonce {
+			lower++
+			if o.g != e.g {
+				other++
+			}
+		}
+	}
+	if rng.Intn(3) == 0 {
+		r.btimeout(e.c, e.g, e.nonce)
+		return
+	}
+	if lower > 0 {
+		r.out.Count("gen:executed:with-lower-nonce-pending")
+	}
+	if other > 0 {
+		r.out.Count("gen:executed:with-lower-nonce-of-other-token-pending")
+	}
+	r.executed(e.c, e.g, e.nonce)
+}
+
+// fund gives user u base coins of group g the way its ownership kind allows: FX is held from genesis, a module-owned
+// token is deposited from the external chain, an externally-owned token is converted from the ERC-20 the user holds
+func (r *run) fund(c, g, u, n int) {
+	switch r.w.Groups[g].Kind {
+	case bx.KindModule:
+		r.deposit(c, g, u, n, false)
+	case bx.KindExternal:
+		r.cerc(g, u, u, n)
+	}
+}
+
+// holder picks a (user, group) pair, mostly one where the user holds base coins (erc = false) / ERC-20 tokens (erc = true)
+func (r *run) holder(erc bool) (int, int) {
+	rng := r.rng
+	if rng.Intn(6) > 0 {
+		var cand [][2]int
+		for u := 0; u < bx.NUsers; u++ {
+			for g := range r.w.Groups {
+				if (erc && r.ercBal(u, g) > 0) || (!erc && r.baseBal(u, g) > 0) {
+					cand = append(cand, [2]int{u, g})
+				}
+			}
+		}
+		if len(cand) > 0 {
+			p := cand[rng.Intn(len(cand))]
+			if p[1] == 0 && rng.Intn(2) == 0 { // FX is always held: do not let it dominate
+				p = cand[rng.Intn(len(cand))]
+			}
+			return p[0], p[1]
+		}
+	}
+	return rng.Intn(bx.NUsers), rng.Intn(len(r.w.Groups))
+}
+
+// chainOf picks a chain for group g: mostly one the token is bridged on
+func (r *run) chainOf(g int) int {
+	grp := r.w.Groups[g]
+	if r.rng.Intn(12) > 0 {
+		var cs []int
+		for c, ok := range grp.OnChain {
+			if ok {
+				cs = append(cs, c)
+			}
+		}
+		return cs[r.rng.Intn(len(cs))]
+	}
+	return r.rng.Intn(len(bx.Chains))
+}
+
+// fee: mostly positive (zero is rejected by ValidateBasic)
+func (r *run) fee() int {
+	if r.rng.Intn(12) == 0 {
+		return 0
+	}
+	return 1 + r.rng.Intn(3)
+}
+
+// batchScenario: several tokens of one chain get transfers and a pending batch each, then the external chain settles
+// them in an arbitrary order while senders try to cancel
+func (r *run) batchScenario() {
+	rng := r.rng
+	c := rng.Intn(2) // eth (5 tokens) or bsc (2 tokens)
+	var gs []int
+	for _, g := range r.w.Groups {
+		if g.OnChain[c] {
+			gs = append(gs, g.G)
+		}
+	}
+	rng.Shuffle(len(gs), func(i, j int) { gs[i], gs[j] = gs[j], gs[i] })
+	if len(gs) > 3 {
+		gs = gs[:2+rng.Intn(2)]
+	}
+	for _, g := range gs {
+		u := rng.Intn(bx.NUsers)
+		r.fund(c, g, u, 20+rng.Intn(20))
+		for i := 0; i < 1+rng.Intn(2); i++ {
+			r.send(c, g, u, 1+rng.Intn(6), 1+rng.Intn(3))
+		}
+	}
+	rng.Shuffle(len(gs), func(i, j int) { gs[i], gs[j] = gs[j], gs[i] })
+	for _, g := range gs {
+		r.batch(c, g, 0, 1, true)
+		if rng.Intn(3) == 0 { // a second, more profitable batch of the same token
+			u := rng.Intn(bx.NUsers)
+			r.send(c, g, u, 1+rng.Intn(4), 4+rng.Intn(3))
+			r.batch(c, g, 0, 1, true)
+		}
+	}
+	r.out.Count("gen:scenario:multi-token-batches")
+	for i := 0; i < 2*len(gs); i++ {
+		switch rng.Intn(4) {
+		case 0:
+			if txs := r.poolTxs(); len(txs) > 0 {
+				tx := txs[rng.Intn(len(txs))]
+				r.cancel(tx.c, tx.id, tx.u, false, &tx)
+			}
+		default:
+			r.randomSettle()
+		}
+	}
+}
+
+// bridgeBal: what user u holds of the bridge denomination of (g, c) (FX: the coin itself)
+func (r *run) bridgeBal(u, g, c int) int {
+	d := r.w.Groups[g].Bridge[c]
+	if d == "" {
+		return 0
+	}
+	return int(r.w.S.App.BankKeeper.GetBalance(r.w.S.Ctx, r.w.Users[u].AccAddress(), d).Amount.Int64())
+}
+
+// randomIncfee: fee increase of a queued transfer — by message (paid in the bridge denomination, which a holder of an
+// externally-owned token first obtains with MsgConvertDenom) or through the precompile (paid in the ERC-20); mostly by
+// the sender with the transfer's token, sometimes with ANOTHER bridged token the payer holds, sometimes zero
+func (r *run) randomIncfee() {
+	rng := r.rng
+	txs := r.poolTxs()
+	if len(txs) == 0 {
+		r.incfee(0, 1, rng.Intn(bx.NUsers), 1, 1)
+		return
+	}
+	tx := txs[rng.Intn(len(txs))]
+	payer := tx.u
+	if rng.Intn(8) == 0 {
+		payer = rng.Intn(bx.NUsers)
+	}
+	g := tx.g
+	if rng.Intn(6) == 0 { // another token: prefer one whose bridge denomination / ERC-20 the payer holds
+		var cand []int
+		for _, o := range r.w.Groups {
+			if o.G != tx.g && o.OnChain[tx.c] && (r.bridgeBal(payer, o.G, tx.c) > 0 || r.ercBal(payer, o.G) > 0) {
+				cand = append(cand, o.G)
+			}
+		}
+		if len(cand) > 0 {
+			g = cand[rng.Intn(len(cand))]
+		} else {
+			g = rng.Intn(len(r.w.Groups))
+		}
+		r.out.Count("gen:incfee:other-token")
+	}
+	n := 1 + rng.Intn(4)
+	if rng.Intn(12) == 0 {
+		n = 0
+	}
+	if rng.Intn(2) == 0 && r.ercBal(payer, g) > 0 {
+		r.out.Count("gen:incfee:precompile")
+		r.xincfee(tx.c, tx.id, payer, g, n)
+		return
+	}
+	if r.w.Groups[g].Kind == bx.KindExternal && r.w.Groups[g].OnChain[tx.c] && r.bridgeBal(payer, g, tx.c) < n && r.baseBal(payer, g) >= n && rng.Intn(3) > 0 {
+		r.cden(g, payer, payer, n+rng.Intn(3), -1, tx.c) // obtain the bridge denomination first
+	}
+	r.incfee(tx.c, tx.id, payer, g, n)
 }
 
 func (r *run) randomOp() {
@@ -632,20 +1266,29 @@ func (r *run) randomOp() {
 	case k < 18:
 		g, c := r.pickGroupChain(false)
 		r.deposit(c, g, u, 1+rng.Intn(40), rng.Intn(3) == 0)
-	case k < 32:
-		g, c := r.pickGroupChain(false)
-		n := r.amount(r.baseBal(u, g) - 1)
+	case k < 31:
+		u, g := r.holder(false)
+		fee := r.fee()
+		n := r.amount(r.baseBal(u, g) - fee)
 		if n < 1 {
 			n = 1
 		}
-		r.send(c, g, u, n, rng.Intn(4))
-	case k < 40:
-		g, c := r.pickGroupChain(false)
-		n := r.amount(r.ercBal(u, g) - 1)
+		r.send(r.chainOf(g), g, u, n, fee)
+	case k < 34:
+		n := r.amount(r.baseBal(u, 0) - 1)
+		g := 0
+		if rng.Intn(12) == 0 {
+			g = rng.Intn(len(r.w.Groups))
+		}
+		r.vsend(r.chainOf(g), g, u, n, rng.Intn(3))
+	case k < 41:
+		u, g := r.holder(true)
+		fee := rng.Intn(3)
+		n := r.amount(r.ercBal(u, g) - fee)
 		if n < 1 {
 			n = 1
 		}
-		r.xsend(c, g, u, n, rng.Intn(4))
+		r.xsend(r.chainOf(g), g, u, n, fee)
 	case k < 48:
 		txs := r.poolTxs()
 		if len(txs) == 0 || rng.Intn(12) == 0 {
@@ -662,42 +1305,34 @@ func (r *run) randomOp() {
 			txp = &tx
 		}
 		r.cancel(tx.c, tx.id, who, rng.Intn(2) == 0, txp)
-	case k < 52:
-		txs := r.poolTxs()
-		if len(txs) == 0 {
-			r.incfee(0, 1, u, 1, 1)
-			return
-		}
-		tx := txs[rng.Intn(len(txs))]
-		g := tx.g
-		if rng.Intn(8) == 0 {
-			g = rng.Intn(5)
-		}
-		r.incfee(tx.c, tx.id, u, g, rng.Intn(5))
+	case k < 53:
+		r.randomIncfee()
 	case k < 60:
-		g, c := r.pickGroupChain(false)
-		r.batch(c, g, rng.Intn(3))
+		r.randomBatch()
 	case k < 68:
-		var all [][3]int
-		for c := range bx.Chains {
-			for _, b := range r.w.Keeper(c).GetOutgoingTxBatches(r.w.S.Ctx) {
-				all = append(all, [3]int{c, r.w.GroupByContract(c, b.TokenContract), int(b.BatchNonce)})
-			}
-		}
-		if len(all) == 0 || rng.Intn(12) == 0 {
-			g, c := r.pickGroupChain(true)
-			r.executed(c, g, 1+rng.Intn(4))
-			return
-		}
-		b := all[rng.Intn(len(all))]
-		if rng.Intn(3) == 0 {
-			r.btimeout(b[0], b[1], b[2])
-		} else {
-			r.executed(b[0], b[1], b[2])
-		}
+		r.randomSettle()
 	case k < 76:
 		c := rng.Intn(len(bx.Chains))
-		r.bcout(c, u, rng.Intn(bx.NUsers), r.tokens(c), rng.Intn(2) == 0)
+		pre := rng.Intn(2) == 0
+		if pre && rng.Intn(3) == 0 { // FX travels as msg.value, alone or with ERC-20 tokens
+			if rng.Intn(6) > 0 {
+				c = 0 // FX is bridged on eth only
+			}
+			var ts []tok
+			if rng.Intn(3) > 0 {
+				ts = r.tokensOf(c, u, true, true)
+			}
+			v := r.amount(r.baseBal(u, 0))
+			if v > 50 {
+				v = 1 + rng.Intn(50)
+			}
+			if rng.Intn(12) == 0 {
+				v = 0
+			}
+			r.vbcout(c, u, rng.Intn(bx.NUsers), v, ts)
+			return
+		}
+		r.bcout(c, u, rng.Intn(bx.NUsers), r.tokensOf(c, u, pre, pre), pre)
 	case k < 84:
 		calls := r.outCalls()
 		if len(calls) == 0 || rng.Intn(12) == 0 {
@@ -708,7 +1343,13 @@ func (r *run) randomOp() {
 		r.bcresult(cr.c, cr.nonce, rng.Intn(3) == 0, &cr, rng.Intn(3) == 0)
 	case k < 89:
 		c := rng.Intn(len(bx.Chains))
-		r.bcin(c, u, rng.Intn(bx.NUsers), r.tokens(c), rng.Intn(3) == 0)
+		fail := rng.Intn(3) == 0
+		ts := r.tokens(c)
+		if !fail && rng.Intn(4) == 0 { // the claim carries token ARRAYS: the same token twice
+			ts = append(ts, tok{ts[0].g, 1 + rng.Intn(5)})
+			r.out.Count("gen:tokens:same-token-twice")
+		}
+		r.bcin(c, u, rng.Intn(bx.NUsers), ts, fail)
 	case k < 93:
 		g := rng.Intn(5)
 		r.ccoin(g, u, rng.Intn(bx.NUsers), r.amount(r.baseBal(u, g)))
@@ -716,9 +1357,29 @@ func (r *run) randomOp() {
 		g := rng.Intn(5)
 		r.cerc(g, u, rng.Intn(bx.NUsers), r.amount(r.ercBal(u, g)))
 	default:
-		g := 1 + rng.Intn(4)
 		dens := []int{-1, 0, 1, 2}
-		r.cden(g, u, rng.Intn(bx.NUsers), 1+rng.Intn(10), dens[rng.Intn(4)], dens[rng.Intn(4)])
+		if rng.Intn(8) == 0 {
+			g := 1 + rng.Intn(4)
+			r.cden(g, u, rng.Intn(bx.NUsers), 1+rng.Intn(10), dens[rng.Intn(4)], dens[rng.Intn(4)])
+			return
+		}
+		// state-aware: a holder converts base -> an alias of the token, or an alias it holds back to base / to another alias
+		u, g := r.holder(false)
+		if g == 0 {
+			g = 1 + rng.Intn(4)
+		}
+		src, dst, bal := -1, r.chainOf(g), r.baseBal(u, g)
+		for c := range bx.Chains {
+			if b := r.bridgeBal(u, g, c); b > 0 && rng.Intn(2) == 0 {
+				src, bal = c, b
+				dst = dens[rng.Intn(4)]
+			}
+		}
+		rc := u
+		if rng.Intn(4) == 0 {
+			rc = rng.Intn(bx.NUsers)
+		}
+		r.cden(g, u, rc, r.amount(bal), src, dst)
 	}
 }
 
@@ -738,14 +1399,22 @@ func TestC04(t *testing.T) {
 	for seq := 0; seq < nSeq; seq++ {
 		s := hx.NewSuite(t, 1)
 		w := bx.NewWorld(s)
-		r := &run{w: w, out: out, rng: rng, initial: w.Held(), deposited: map[int]*big.Int{}, withdrawn: map[int]*big.Int{}}
+		r := &run{w: w, out: out, rng: rng, initial: w.Held(), deposited: map[int]*big.Int{}, withdrawn: map[int]*big.Int{}, extLast: map[[2]int]int{}, extSupply: map[[2]int]*big.Int{}}
+		r.relayer = helpers.NewSigner(helpers.NewEthPrivKey()).AccAddress()
+		for c := range bx.Chains {
+			w.Keeper(c).SetOracleAddrByBridgerAddr(w.S.Ctx, r.relayer, helpers.NewSigner(helpers.NewEthPrivKey()).AccAddress())
+		}
 		for _, g := range w.Groups {
 			r.deposited[g.G] = new(big.Int)
 			r.withdrawn[g.G] = new(big.Int)
 		}
-		out.Reset(w.S.App.BankKeeper.GetBalance(w.S.Ctx, bx.ModuleAddr("eth"), fxtypes.DefaultDenom).Amount.String())
+		m0fx := w.S.App.BankKeeper.GetBalance(w.S.Ctx, bx.ModuleAddr("eth"), fxtypes.DefaultDenom).Amount
+		r.supply(0, 0).Set(m0fx.BigInt()) // the FX locked at genesis is what circulates on Ethereum
+		out.Reset(m0fx.String())
 		if seq == 0 {
 			r.scripted()
+		} else if seq%2 == 1 {
+			r.batchScenario()
 		}
 		for i := 0; i < nOps; i++ {
 			r.randomOp()
